@@ -198,6 +198,11 @@ def report(ctx, fails):
 
 def replay(ctx, payload):
     fails = []
+    if payload and payload.get('part') == 'aipsw_dr':
+        from props import c16
+        c16.aipsw_dr_replay(ctx, fails, payload)
+        report(ctx, fails)
+        return
     df = pd.DataFrame(payload['data'])
     run_runs(ctx, fails, [{'df': df, 'meta': payload['meta'], 'est': payload['est'], 'which': payload['which'],
                            't': tuple(payload['t']), 'o': tuple(payload['o'])}])
